@@ -146,6 +146,7 @@ def mpas_dataset(m, rng, supply_distances=None, dual=False, force=None):
         "lon": _pick(rng, ["0..2pi", "-pi..pi"]),
         "distances": bool(rng.random() < 0.5) if supply_distances is None else bool(supply_distances),
         "dual": bool(dual),
+        "index_dtype": _pick(rng, ["int32", "int32", "int64"]),
     }
     if force:
         d.update(force)
@@ -247,6 +248,10 @@ def mpas_dataset(m, rng, supply_distances=None, dual=False, force=None):
             supplied["distances"] = {"edge_node": dv, "edge_face": dc}
     else:
         d["distances"] = False
+    if d["index_dtype"] != "int32":
+        for v in ("verticesOnCell", "nEdgesOnCell", "cellsOnVertex", "edgesOnCell", "cellsOnCell", "verticesOnEdge", "cellsOnEdge", "edgesOnVertex"):
+            if v in ds:
+                ds[v] = ds[v].astype(d["index_dtype"])
     info = {"expect": m, "reflect": False, "dial": d, "supplied": supplied, "format": "MPAS"}
     if dual:
         # dual: nodes = cell centres, faces = cells around each vertex (as listed, zeros dropped)
@@ -287,11 +292,11 @@ def scrip_dataset(m, rng, force=None):
 
 # =============================================================================== Exodus
 def exodus_dataset(m, rng, force=None):
-    d = {"coord": _pick(rng, ["coord", "coordxyz"]), "radius": _pick(rng, [1.0, 1.0, 6371.0]), "block_order": _pick(rng, ["ascending", "descending"])}
+    d = {"coord": _pick(rng, ["coord", "coordxyz"]), "radius": _pick(rng, [1.0, 1.0, 6371.0]), "block_order": _pick(rng, ["ascending", "descending"]),
+         "split_blocks": _pick(rng, [1, 1, 2, 5, 12])}
     if force:
         d.update(force)
     sizes = sorted({len(f) for f in m.faces}, reverse=d["block_order"] == "descending")
-    d["n_blocks"] = len(sizes)
     ds = xr.Dataset(attrs={"api_version": 5.0, "version": 5.0, "floating_point_word_size": 8, "title": "uxmon"})
     P = m.xyz * d["radius"]
     if d["coord"] == "coord":
@@ -301,12 +306,21 @@ def exodus_dataset(m, rng, force=None):
             ds["coord" + ax] = xr.DataArray(P[:, k].copy(), dims=["num_nodes"])
         ds["coor_names"] = xr.DataArray(np.array(["x", "y", "z"]), dims=["num_dim"])
     order = []
-    for b, s in enumerate(sizes, start=1):
-        idx = [i for i, f in enumerate(m.faces) if len(f) == s]
-        order += idx
-        conn = np.array([m.faces[i] for i in idx], dtype=np.int32) + 1
-        ds["connect%d" % b] = xr.DataArray(conn, dims=["num_el_in_blk%d" % b, "num_nod_per_el%d" % b], attrs={"elem_type": {3: "TRI3", 4: "SHELL4"}.get(s, "NSIDED")})
-    ds["eb_status"] = xr.DataArray(np.ones(len(sizes), dtype=np.int32), dims=["num_el_blk"])
+    b = 0
+    for s in sizes:
+        idx_all = [i for i, f in enumerate(m.faces) if len(f) == s]
+        # an element block is any group of elements of one type: a size group may be spread over several blocks
+        nsplit = max(1, min(int(d["split_blocks"]), len(idx_all)))
+        for part in np.array_split(np.array(idx_all), nsplit):
+            idx = [int(i) for i in part]
+            if not idx:
+                continue
+            b += 1
+            order += idx
+            conn = np.array([m.faces[i] for i in idx], dtype=np.int32) + 1
+            ds["connect%d" % b] = xr.DataArray(conn, dims=["num_el_in_blk%d" % b, "num_nod_per_el%d" % b], attrs={"elem_type": {3: "TRI3", 4: "SHELL4"}.get(s, "NSIDED")})
+    d["n_blocks"] = b
+    ds["eb_status"] = xr.DataArray(np.ones(b, dtype=np.int32), dims=["num_el_blk"])
     expect = gen.Mesh(m.xyz, [m.faces[i] for i in order], dict(m.desc, exodus_order=True), m.closed)
     return ds, {"expect": expect, "reflect": False, "dial": d, "supplied": {}, "format": "Exodus"}
 
@@ -314,7 +328,7 @@ def exodus_dataset(m, rng, force=None):
 # =============================================================================== ESMF
 def esmf_dataset(m, rng, force=None):
     d = {"start_index": _pick(rng, ["absent", 1, 0]), "decoded": bool(rng.random() < 0.5), "centers": bool(rng.random() < 0.6),
-         "lon": _pick(rng, ["-180..180", "0..360"])}
+         "lon": _pick(rng, ["-180..180", "0..360"]), "index_dtype": _pick(rng, ["int32", "int32", "int64"])}
     if force:
         d.update(force)
     si = 1 if d["start_index"] == "absent" else d["start_index"]
@@ -335,7 +349,7 @@ def esmf_dataset(m, rng, force=None):
         ds["elementConn"] = xr.DataArray(cf, dims=["elementCount", "maxNodePElement"], attrs=attrs)
     else:
         attrs["_FillValue"] = np.int32(-1)
-        ds["elementConn"] = xr.DataArray(conn, dims=["elementCount", "maxNodePElement"], attrs=attrs)
+        ds["elementConn"] = xr.DataArray(conn.astype(d["index_dtype"]), dims=["elementCount", "maxNodePElement"], attrs=attrs)
     ds["numElementConn"] = xr.DataArray(np.array([len(f) for f in m.faces], dtype=np.int32), dims=["elementCount"])
     supplied = {}
     if d["centers"]:
